@@ -36,7 +36,8 @@ RULE = ('seeded generator: produce requests with topics as bytes of length 0..30
         '2..5 requests of shrinking/equal/growing size through one sink instance (each queued frame parsed strictly: declared '
         'size = bytes written, nothing stale or trailing); transport-level histories: ClientTimeoutSink -> KafkaSerializerSink -> '
         'KafkaTransportSink with its real send/receive loops on a virtual clock against a fake broker that answers on command: '
-        'requests time out in flight / while queued / at the call, new requests on the same connection, late replies. '
+        'requests time out in flight / while queued / at the call, new requests on the same connection, late replies, several '
+        'replies flushed in one segment (all readable before the receive loop yields). '
         'non-trivial = the implementation produced bytes / a decoded value / a routing decision (no exception); distinct by '
         'canonical JSON of (case, observation)')
 TRUSTED = ['zlib.crc32 (the implementation uses it; the harness uses it as the CRC oracle and to cross-check Model/Crc32.v)',
@@ -616,11 +617,15 @@ def gen_transport(r):
       ops.append(op)
     elif k < 0.65:
       ops.append({'op': 'advance', 'dt': r.choice([0.01, 0.06, 0.06, 0.2, 0.2, 1, 10])})
-    else:
+    elif k < 0.85 or nsend < 2:
       ops.append({'op': 'reply', 'to': r.randrange(nsend)})
-  for k in r.sample(range(nsend), nsend):
-    if r.random() < 0.5:
-      ops.append({'op': 'reply', 'to': k})
+    else:
+      ops.append({'op': 'reply', 'to': r.sample(range(nsend), min(nsend, r.choice([2, 2, 3, 4])))})
+  rest = [k for k in r.sample(range(nsend), nsend) if r.random() < 0.6]
+  if len(rest) >= 2 and r.random() < 0.5:
+    ops.append({'op': 'reply', 'to': rest})            # the broker flushes everything it still owes in one segment
+  else:
+    ops.extend({'op': 'reply', 'to': k} for k in rest)
   return {'kind': 'transport', 'cid': r.choice(CIDS[:9]), 'ops': ops}
 
 
@@ -746,6 +751,15 @@ def gen_cases(tier, seed):
         {'op': 'advance', 'dt': 100},
         {'op': 'reply', 'to': 5},
         {'op': 'reply', 'to': 3},
+    ]})
+  for order in ([0, 1], [1, 0], [2, 0, 1]):
+    out.append({'kind': 'transport', 'cid': None, 'ops': [
+        {'op': 'send', 'k': 0, 'timeout': 5, 'call': {'put': {'topic': hx(b'first'), 'partition': 0, 'acks': 1, 'payloads': [hx(b'a')]}}},
+        {'op': 'send', 'k': 1, 'timeout': None, 'call': {'put': {'topic': hx(b'second'), 'partition': 1, 'acks': 1, 'payloads': []}}},
+        {'op': 'send', 'k': 2, 'timeout': 0.1, 'call': {'put': {'topic': hx(b'third'), 'partition': 2, 'acks': 1, 'payloads': [hx(b'c')]}}},
+        {'op': 'advance', 'dt': 0.2},
+        {'op': 'reply', 'to': order},
+        {'op': 'reply', 'to': [k for k in (0, 1, 2) if k not in order]},
     ]})
   out.append({'kind': 'route', 'cid': None, 'pool': 'scripted', 'ops': [
       {'op': 'send', 'k': 0, 'tag': -2 ** 31, 'call': {'meta': []}},
@@ -1242,17 +1256,27 @@ def _run_transport(case):
             cb()
         settle()
       else:
-        f = frame_of.get(op['to'])
-        if f is not None and op['to'] in written and op['to'] not in replied:
+        # the broker answers the listed requests (each at most once) and flushes all the replies in ONE segment:
+        # they are all readable when the receive loop wakes up
+        tos = op['to'] if isinstance(op['to'], list) else [op['to']]
+        chunk = b''
+        o['datas'] = []
+        o['tos'] = []
+        for kk in tos:
+          f = frame_of.get(kk)
+          if f is None or kk not in written or kk in replied:
+            continue
           try:
-            data = _broker_reply(f, op['to'])
+            data = _broker_reply(f, kk)
           except (ParseError, IndexError, KeyError):
-            data = None
-          if data is not None:
-            replied.add(op['to'])
-            o['data'] = data.hex()
-            sock.to_client.put(struct.pack('!i', len(data)) + data)
-            settle()
+            continue
+          replied.add(kk)
+          o['datas'].append(data.hex())
+          o['tos'].append(kk)
+          chunk += struct.pack('!i', len(data)) + data
+        if chunk:
+          sock.to_client.put(chunk)
+          settle()
       o['now'] = clock['now']
       o['queued'] = [x.hex() for x in queued[nq:]]
       o['written'] = [x.hex() for x in sock.received[nr:]]
@@ -1583,11 +1607,12 @@ def monitor(case, obs):
                     'outstanding at the broker (it owes a reply)' % (kk, corr, outstanding[corr])))
         outstanding[corr] = kk
         q['corr'] = corr
-      if op['op'] == 'reply' and 'data' in o:
-        corr = int.from_bytes(bytes.fromhex(o['data'])[:4], 'big', signed=True)
-        replied.add(op['to'])
-        if outstanding.get(corr) == op['to']:
-          del outstanding[corr]
+      if op['op'] == 'reply':
+        for kk, dh in zip(o['tos'], o['datas']):
+          corr = int.from_bytes(bytes.fromhex(dh)[:4], 'big', signed=True)
+          replied.add(kk)
+          if outstanding.get(corr) == kk:
+            del outstanding[corr]
       for d in o['delivered']:
         kk = d['k']
         if kk not in info:
@@ -1613,9 +1638,11 @@ def monitor(case, obs):
                         (kk, other[0], C.canon(d.get('value'))[:200])))
             else:
               v.append(('response-decoded-wrong', where + 'caller %d received %s, broker encoded %s' % (kk, C.canon(d.get('value'))[:200], C.canon(want)[:200])))
-      if op['op'] == 'reply' and 'data' in o and op['to'] not in before and op['to'] not in result:
-        v.append(('route-not-delivered', where + 'the broker replied to request %d (correlation id %d) but its caller, still waiting, received nothing' %
-                  (op['to'], int.from_bytes(bytes.fromhex(o['data'])[:4], 'big', signed=True))))
+      if op['op'] == 'reply':
+        for kk, dh in zip(o['tos'], o['datas']):
+          if kk not in before and kk not in result:
+            v.append(('route-not-delivered', where + 'the broker replied to request %d (correlation id %d) but its caller, still waiting, received nothing' %
+                      (kk, int.from_bytes(bytes.fromhex(dh)[:4], 'big', signed=True))))
       if op['op'] == 'advance':
         for kk, q in info.items():
           if q['deadline'] is not None and q['deadline'] <= now and kk not in result:
@@ -1819,17 +1846,16 @@ def to_coq(case, obs):
             exp.append('VRaise')
         for _x in o['queued']:
           exp.append('VRaise')
-      elif 'data' in o:
-        ops.append('TOp (RReply %s)' % _bl(bytes.fromhex(o['data'])))
-        dl = o['delivered']
-        if not dl:
-          exp.append('VNothing')
-        else:
-          exp.append('VDeliver %s %s' % (_z(dl[0]['k']), _oreply(dl[0])))
-          for d in dl[1:]:
-            exp.append('VRaise')
-      elif o['delivered']:
-        exp.append('VRaise')
+      else:
+        dl = list(o['delivered'])
+        for kk, dh in zip(o['tos'], o['datas']):      # replies are processed in the order they were read
+          ops.append('TOp (RReply %s)' % _bl(bytes.fromhex(dh)))
+          if dl and dl[0]['k'] == kk:
+            exp.append('VDeliver %s %s' % (_z(kk), _oreply(dl.pop(0))))
+          else:
+            exp.append('VNothing')
+        for d in dl:
+          exp.append('VRaise')
     return 'CTransport %s %s %s' % (_cid(case.get('cid')), C.lst(ops), C.lst(exp))
   raise ValueError(k)
 
@@ -1913,8 +1939,10 @@ def stats(cases, obs):
           else:
             out['transport:reply-delivered'] += 1
           done.add(d['k'])
-        if op['op'] == 'reply' and 'data' in x and not x['delivered']:
-          out['transport:late-reply-absorbed'] += 1
+        if op['op'] == 'reply':
+          out['transport:late-reply-absorbed'] += max(0, len(x['datas']) - len(x['delivered']))
+          if len(x['datas']) > 1:
+            out['transport:replies-in-one-segment:%d' % min(len(x['datas']), 3)] += 1
         if op['op'] == 'send' and x['queued'] and any(d.get('err') == 'TimeoutError' for y in o['ops'] for d in y['delivered']):
           pass
   return {'branch_distribution': dict(sorted(out.items())), 'produce_payload_count_histogram': dict(npay)}
